@@ -586,3 +586,35 @@ def p13(ctx):
 
 
 RULES.append(p13)
+
+
+@rule("P14", doc="an e-node's source id is not its class id: what is passed where a callee expects a source id (a parameter named `src_id`: it names the e-node's syntactic origin, which proofs and the self-symmetry derivation start from) is read from a stored node's `src_id`, is the id a class was just allocated with, or is the caller's own `src_id` — never `.id` of an invocation (the class the node lives in now; the two differ for every node that arrived through a union)")
+def p14(ctx):
+    crate = ctx.lib()
+    n = 0
+    for b in crate.fns():
+        if not (b.file or "").startswith("src/") or (b.file or "").endswith("/check.rs"):
+            continue
+        for sub in b.all_bodies():
+            for cs in sub.calls:
+                if sub.blocks[cs.bb]["cleanup"] or not cs.callee or cs.callee.target not in crate.bodies:
+                    continue
+                t = crate.bodies[cs.callee.target]
+                for i in range(min(len(cs.args), t.argc)):
+                    if t.var_names.get(i + 1) != "src_id" or t.local_ty(i + 1) != "types::Id":
+                        continue
+                    n += 1
+                    r = strip_role(sub.role_of_operand(cs.args[i]))
+                    ok = (isinstance(r, tuple) and r[0] == "field" and r[2] == "src_id") or (isinstance(r, tuple) and r[0] == "param" and r[1] == "src_id") \
+                        or (isinstance(r, tuple) and r[0] == "call" and (r[1].startswith("alloc") or r[1] in ("src_id",)))
+                    if isinstance(r, tuple) and r[0] == "upvar":
+                        ok = "src_id" in role_str(r)
+                    ctx.check(ok, "source-id-argument:%s:%s" % (C.fkey(b), t.name), "%s hands %s a source id" % (C.short(b.id), t.name),
+                              "%s passes %s where %s expects the SOURCE id of an e-node: only a stored node's `src_id`, a freshly allocated class id or the caller's own `src_id` name an e-node's origin — the id of the class the node currently lives in names that class's native node instead (different for every node that came in through a union)" % (C.short(b.id), role_str(r)[:60], t.name),
+                              where_of(sub, cs.bb))
+    # (no floor: the parameter name is the anchor; if it is renamed the rule has nothing to say)
+    if n == 0:
+        ctx.ok("source-id-argument:none", "no callee takes a parameter named src_id")
+
+
+RULES.append(p14)
